@@ -5,5 +5,9 @@ import TV.Properties.C20
 #print axioms TV.C20.C20_read_sequences
 #print axioms TV.C20.C20_add_contains_both
 #print axioms TV.C20.C20_model_passes_monitor_perm
+#print axioms TV.C20.C20_monitor_flat
+#print axioms TV.C20.C20_monitor_error
+#print axioms TV.C20.C20_monitor_add
+#print axioms TV.C20.C20_model_passes_monitor
 #print axioms TV.C20.pinned_C20_read_grows
 #print axioms TV.C20.pinned_C20_nil_map_panics
